@@ -44,6 +44,8 @@ pub enum GateKind {
     Publish,
     Proto,
     Control,
+    /// `Service::shutdown()` of an application service taking (simulated) time
+    Shutdown,
 }
 
 #[derive(Clone, Debug, PartialEq, Eq)]
@@ -256,6 +258,11 @@ pub struct World {
     pub setup_error: RefCell<Option<String>>,
     /// enumerated immediate / deferred mix (Plan::immediate_mask); empty = drawn per gate
     pub immediate_mask: RefCell<Vec<bool>>,
+    /// the publish service's readiness check fails once this many publish handlers have been started
+    pub ready_fail_after: Cell<Option<u32>>,
+    pub ready_fail_noted: Cell<bool>,
+    /// `shutdown()` of the application's services parks on a gate
+    pub slow_shutdown: Cell<bool>,
 }
 
 impl World {
@@ -279,6 +286,9 @@ impl World {
             conn_done: RefCell::new(Vec::new()),
             setup_error: RefCell::new(None),
             immediate_mask: RefCell::new(Vec::new()),
+            ready_fail_after: Cell::new(None),
+            ready_fail_noted: Cell::new(false),
+            slow_shutdown: Cell::new(false),
         })
     }
 
@@ -472,6 +482,37 @@ impl World {
     pub fn gate_exit(&self, id: usize, outcome: Outcome) {
         self.gates.borrow_mut()[id].exited = true;
         self.ev(Ev::GateExit { gate: id, outcome });
+    }
+
+    // ------------------------------------------------------------------ service readiness / shutdown
+
+    /// Has the application's publish service started to fail its readiness check (connection 0 only)?
+    pub fn svc_ready_failed(&self, conn: usize) -> bool {
+        let Some(k) = self.ready_fail_after.get() else { return false };
+        if conn != 0 {
+            return false;
+        }
+        let started = self.gates.borrow().iter().filter(|g| g.conn == conn && g.kind == GateKind::Publish).count() as u32;
+        if started < k {
+            return false;
+        }
+        if !self.ready_fail_noted.get() {
+            self.ready_fail_noted.set(true);
+            self.fault(conn, "svc_ready_err", u64::from(k));
+        }
+        true
+    }
+
+    /// `Service::shutdown()` of an application service: returns at once, or parks on a gate.
+    pub async fn svc_shutdown(&self, conn: usize) {
+        if !self.slow_shutdown.get() {
+            return;
+        }
+        let (gid, imm) = self.gate_enter(conn, GateKind::Shutdown, GateDesc::Control { brief: "service shutdown".into() });
+        if imm.is_none() {
+            let _ = self.gate_wait(gid).await;
+        }
+        self.gate_exit(gid, Outcome::Ok);
     }
 
     // ------------------------------------------------------------------ senders
